@@ -97,6 +97,40 @@ def wrap_method(cls, name, post, pre=None, on_exception=None):
     return wrapper
 
 
+def wrap_property(cls, name, post, pre=None):
+    """Monitor reads of a property defined on cls (setter/deleter kept). After every read post(obj, value) is called,
+    or post(obj, value, pre_state) when a pre(obj) hook is given (it runs before the getter, e.g. to record whether
+    the read is going to trigger a lazy regeneration)."""
+    prop = cls.__dict__[name]
+    qual = '%s.%s.%s' % (cls.__module__, cls.__name__, name)
+    if getattr(prop.fget, '__vf_wrapped__', False):
+        prop.fget.__vf_posts__.append((pre, post))
+        return prop
+    posts = [(pre, post)]
+    orig_get = prop.fget
+
+    def fget(self):
+        if not STATE['enabled']:
+            return orig_get(self)
+        pres = [(p(self) if p is not None else None) for p, _ in posts]
+        value = orig_get(self)
+        CALLS[qual] = CALLS.get(qual, 0) + 1
+        for (p, q), ps in zip(posts, pres):
+            if p is not None:
+                q(self, value, ps)
+            else:
+                q(self, value)
+        return value
+
+    fget.__vf_wrapped__ = True
+    fget.__vf_posts__ = posts
+    fget.__doc__ = orig_get.__doc__
+    new = property(fget, prop.fset, prop.fdel, prop.__doc__)
+    setattr(cls, name, new)
+    _installed[qual] = prop
+    return new
+
+
 class paused(object):
     """with paused(): call eqsig without triggering the monitors (used by oracles that reuse a monitored function)."""
     def __enter__(self):
